@@ -189,7 +189,25 @@ func enumPrintShapes(thorough bool, yield func(Case) bool) {
 	}
 }
 
+// Sources (not renderer output) in which an unparenthesised "cmd | getline" is followed by an operator
+// inside a parenthesised print list: the parser reads everything to the left of | as the command
+// and continues with the operators to the right, so these are legal without inner parentheses.
+func enumGetlineInPrintList(thorough bool, yield func(Case) bool) {
+	ops := []string{"+ 1", "- 1", "* 2", "/ 2", "% 2", "^ 2", "\"s\"", "< 1", "<= 1", "== 1", "!= 1", ">= 1", "~ /x/", "&& y", "|| y", "? a : b", "in arr", ""}
+	for _, target := range []string{"", " v", " arr[1]", " $2"} {
+		for _, op := range ops {
+			e := "\"cmd\" | getline" + target + " " + op
+			for _, tpl := range []string{"print(%s, x)", "print(x, %s)", "print(x, %s, y)", "printf(\"%%s %%s\", x, %s)", "print(x, %s) > \"out\"", "print(%s, x) | \"sort\"", "print(x, -%s)", "print(x, !%s)", "print(x, (%s))", "print(x, 1 + (%s))", "print(%s)", "print((%s), x)"} {
+				if !yield(Case{Src: h.Str("BEGIN { " + fmt.Sprintf(tpl, e) + " }\n")}) {
+					return
+				}
+			}
+		}
+	}
+}
+
 func init() {
+	h.Enum("getline_in_print_list", enumGetlineInPrintList, run)
 	h.Prop("print_reparse_roundtrip", 80000, 1500000, genCase, run)
 	h.Enum("print_argument_shapes", enumPrintShapes, run)
 }
